@@ -10,5 +10,5 @@ CONSTANTS
   OrdProbeInc = "Acquire"
 SPECIFICATION Spec
 VIEW View
-INVARIANTS SafeCex NoLeakAtEnd CountMatches 
+INVARIANTS SafeCex NoLeakAtEnd CountMatches EmitDone
 CHECK_DEADLOCK FALSE
